@@ -480,6 +480,7 @@ pub fn c01_families(tier: &str) -> Vec<SeqSpec> {
         .flush(),
     );
     v.push(staggered_family("F-staggered/T300", if t { 6 } else { 4 }, READS));
+    v.push(boundary_tables_family("F-boundary-tables/T300", if t { 4 } else { 3 }, READS));
     v.push(l0_overlap_family("F-l0-overlap-low/T300", true, if t { 4 } else { 3 }, READS));
     v.push(l0_overlap_family("F-l0-overlap-high/T300", false, if t { 4 } else { 3 }, READS));
     // from the empty database with tiny level limits: files with distinct keys are moved down level
@@ -598,6 +599,7 @@ pub fn c07(tier: &str) -> ! {
     fams.push(spec("C07-snap/T1", &["T1"], k2(), a_c03_small(), if t { 7 } else { 5 }, ck).flush());
     // the extreme byte-string keys (empty, 0x00, 0xff) through deletes and ranged compactions
     fams.push(spec("C07-bytes/T300", &["T300"], vec![vec![], vec![0x00], vec![0xff]], a_c07_small(), if t { 5 } else { 3 }, ck).flush());
+    fams.push(boundary_tables_family("C07-boundary-tables/T300", if t { 4 } else { 3 }, ck));
     fams.push(l0_overlap_family("C07-l0-overlap-low/T300", true, if t { 4 } else { 3 }, ck));
     fams.push(l0_overlap_family("C07-l0-overlap-high/T300", false, if t { 4 } else { 3 }, ck));
     if t {
@@ -777,6 +779,7 @@ pub fn c09_seq_families(tier: &str) -> Vec<SeqSpec> {
     // misaligned file boundaries on neighbouring levels + single-key range compactions
     fams.push(staggered_family("C09-staggered/T300", if t { 5 } else { 3 }, ck));
     fams.push(l0_overlap_family("C09-l0-overlap-low/T300", true, if t { 4 } else { 2 }, ck));
+    fams.push(boundary_tables_family("C09-boundary-tables/T300", if t { 4 } else { 3 }, ck));
     if t {
         fams.push(spec("C09-A1/M2", &["M2"], k3(), a1(), 7, ck).bgfirst());
     }
@@ -1116,6 +1119,33 @@ pub fn l0_overlap_family(name: &str, low: bool, depth: usize, ck: Checks) -> Seq
         vec![Op::Put(0, 0), Op::Flush, Op::Put(0, 0), Op::Flush, Op::Batch(vec![(0, true), (1, true), (2, true)]), Op::Flush, Op::Batch(vec![(1, true), (3, true)]), Op::Flush]
     };
     spec(name, &["T300"], k4s(), alphabet, depth, ck).flush().with_setup(setup)
+}
+
+/// Boundary tables: two neighbouring level-1 tables that split the versions of one user key
+/// ([a, k@new] and [k@old, x]; a live snapshot keeps both versions, 3000-byte values make the
+/// compaction cut its output there) above two level-2 tables [a0] and [m], of which [m] lies only
+/// under the tail of the second level-1 table. A compaction that starts from the first level-1
+/// table has to take the second one along (same user key) and with it the level-2 table [m].
+pub fn boundary_tables_family(name: &str, depth: usize, ck: Checks) -> SeqSpec {
+    let keys = vec![b"a".to_vec(), b"a0".to_vec(), b"k".to_vec(), b"m".to_vec(), b"x".to_vec()];
+    let setup = vec![
+        Op::Put(3, 0), Op::Flush, Op::Put(1, 0), Op::Flush, Op::Put(0, 3), Op::Put(4, 0), Op::Flush, Op::Put(2, 3), Op::Snap, Op::Put(2, 3), Op::Flush,
+        Op::Compact(Some(2), Some(2)),
+    ];
+    let alphabet = vec![
+        Op::Compact(Some(0), Some(1)),
+        Op::Compact(Some(0), Some(0)),
+        Op::Compact(None, Some(1)),
+        Op::Compact(Some(3), Some(4)),
+        Op::Compact(Some(1), Some(3)),
+        Op::Compact(None, None),
+        Op::Put(2, 0),
+        Op::Put(4, 0),
+        Op::Del(0),
+        Op::Release(0),
+        Op::Flush,
+    ];
+    spec(name, &["T300"], keys, alphabet, depth, ck).with_setup(setup)
 }
 
 /// four stored keys c < d < e < f
